@@ -130,6 +130,11 @@ def judge_pairing(ctx: Ctx, a: Dict[str, Any], ests: List[Any], gts: List[Any], 
     if not is_tlr:
         ctx.count("C11.generic_calls_judged")
         ctx.check(set(pairs) == set(same_uuid), "C11/generic_objects_not_paired_iff_same_uuid", dict(info, expected=[(ests[i].uuid, gts[j].uuid) for i, j in same_uuid[:8]]), tap)
+        # what is scored is what was reported: an estimate without a partner is a result of its own (it counts against
+        # precision). The integrated traffic-light camera is the library's one documented exception.
+        if not any(O.frame_of(e) == "cam_traffic_light" for e in ests):
+            ctx.count("C11.generic_unpaired_accounted")
+            ctx.check(all(used_e.get(i, 0) == 1 for i in range(len(ests))), "C11/unpaired_estimate_not_reported", dict(info, reported={str(ests[i].uuid): c for i, c in used_e.items()}, n_estimates=len(ests)), tap)
         return
     ctx.count("C11.tlr_calls_judged")
     n_correct = sum(1 for i, j in pairs if same_label(ests[i], gts[j]))
@@ -288,7 +293,7 @@ def run(ctx: Ctx) -> None:
         for i in ctx.indices("random", 200 if ctx.quick else 20000):
             r = ctx.rng("random", i)
             family = r.choice(["traffic_light", "autoware"])
-            cams = (CAMS + [FrameID.CAM_TRAFFIC_LIGHT]) if family == "traffic_light" else CAMS_GENERIC + [FrameID.CAM_FRONT_LEFT]
+            cams = (CAMS + [FrameID.CAM_TRAFFIC_LIGHT]) if family == "traffic_light" else CAMS_GENERIC + [FrameID.CAM_FRONT_LEFT, FrameID.CAM_TRAFFIC_LIGHT_NEAR, FrameID.CAM_TRAFFIC_LIGHT_FAR]
             labels = (["green", "red", "yellow", "red_left", "unknown"] if family == "traffic_light" else ["car", "bus", "pedestrian", "unknown"])
             n = r.randint(1, 40)
             uu = [f"id{k}" for k in range(n)]
